@@ -32,6 +32,8 @@ type C01Cfg struct {
 	Dual      bool
 	// Prelude: number of simulated peers that get into the table (answered pings), peers announced and items stored
 	Prelude int
+	// ShortExp: stored items expire after 1 ms instead of 2 h
+	ShortExp bool
 }
 
 // C01Field says how one response field is presented: absent | valid | bad (wrong type / length / garbage)
@@ -44,7 +46,7 @@ type C01Tmpl struct {
 
 type C01Dgram struct {
 	Src  Src
-	Kind string // raw | wire | reply
+	Kind string // raw | wire | reply | stored (a well-formed get / put for an item the prelude stored)
 	Data kit.Hex
 	// reply: answer the K-th most recent outgoing query (mod number seen) from its destination ...
 	K int
@@ -66,6 +68,13 @@ func genC01Tmpl(t *rapid.T) C01Tmpl {
 	for _, f := range c01RespFields {
 		tm.Fields[f] = pick(t, "f."+f, "absent", "valid", "valid", "bad")
 	}
+	// special IDs: the node's own, all-zero
+	switch uniformInt(t, 8, "f.id.special") {
+	case 0:
+		tm.Fields["id"] = "own"
+	case 1:
+		tm.Fields["id"] = "zero"
+	}
 	if uniformInt(t, 8, "extra") == 0 {
 		tm.Extra = genBytes(t, 1, 20, "extrabytes")
 	}
@@ -74,7 +83,7 @@ func genC01Tmpl(t *rapid.T) C01Tmpl {
 
 func genC01(t *rapid.T) C01Sc {
 	var sc C01Sc
-	sc.Cfg = C01Cfg{PeerStore: rapid.Bool().Draw(t, "peerstore"), Security: uniformInt(t, 4, "security") == 0, Dual: rapid.Bool().Draw(t, "dual"), Prelude: uniformInt(t, 6, "prelude")}
+	sc.Cfg = C01Cfg{PeerStore: rapid.Bool().Draw(t, "peerstore"), Security: uniformInt(t, 4, "security") == 0, Dual: rapid.Bool().Draw(t, "dual"), Prelude: uniformInt(t, 6, "prelude"), ShortExp: uniformInt(t, 3, "shortexp") == 0}
 	switch uniformInt(t, 8, "mode") {
 	case 0:
 		sc.Cfg.Passive = true
@@ -93,6 +102,9 @@ func genC01(t *rapid.T) C01Sc {
 			d.K = uniformInt(t, 8, "k")
 			d.FromOther = uniformInt(t, 8, "fromother") == 0
 			d.Tmpl = genC01Tmpl(t)
+		} else if roll == 5 && sc.Cfg.Prelude > 0 {
+			d.Kind = "stored"
+			d.K = uniformInt(t, 8, "k")
 		} else if roll < 7 {
 			d.Kind = "raw"
 			switch uniformInt(t, 6, "rawkind") {
@@ -147,7 +159,7 @@ func c01Node(i int, dual bool) *net.UDPAddr {
 }
 
 // build turns a reply template into bytes answering transaction t.
-func (tm C01Tmpl) build(t string, dual bool) []byte {
+func (tm C01Tmpl) build(t string, dual bool, own [20]byte) []byte {
 	valid := map[string]BV{
 		"id":       bs(bytes.Repeat([]byte{0x5a}, 20)),
 		"nodes":    bstr(compactNodes(false, []SimContact{{[20]byte{1, 1}, c01Node(20, false)}, {[20]byte{2, 2}, c01Node(21, false)}, {[20]byte{3}, c01Node(22, false)}})),
@@ -187,6 +199,10 @@ func (tm C01Tmpl) build(t string, dual bool) []byte {
 	for _, f := range c01RespFields {
 		var v BV
 		switch tm.Fields[f] {
+		case "own":
+			v = bs(own[:])
+		case "zero":
+			v = bs(make([]byte, 20))
 		case "valid":
 			v = valid[f]
 		case "bad":
@@ -228,6 +244,9 @@ func runC01(sc C01Sc, c *kit.Case) *kit.Violation {
 		starting = append(starting, c01Node(i, sc.Cfg.Dual))
 	}
 	opts := SrvOpts{NodeID: nodeID, Passive: sc.Cfg.Passive, Hook: sc.Cfg.Hook, PeerStore: sc.Cfg.PeerStore, Security: sc.Cfg.Security, Starting: starting}
+	if sc.Cfg.ShortExp {
+		opts.Exp = time.Millisecond
+	}
 	if sc.Cfg.Security {
 		opts.PublicIP = net.IP{81, 9, 9, 9}
 	}
@@ -249,6 +268,13 @@ func runC01(sc C01Sc, c *kit.Case) *kit.Violation {
 	}
 	// prelude: populate the table, the peer store and the item store through genuine exchanges
 	silent := sc.Cfg.Passive || sc.Cfg.Hook == "veto"
+	type storedItem struct {
+		from  *net.UDPAddr
+		id    [20]byte
+		token string
+		encV  string
+	}
+	var storedItems []storedItem
 	for i := 0; i < sc.Cfg.Prelude; i++ {
 		a := c01Node(30+i, sc.Cfg.Dual)
 		id := [20]byte{0x30, byte(i)}
@@ -266,6 +292,7 @@ func runC01(sc C01Sc, c *kit.Case) *kit.Violation {
 					if tk, ok := r.Get("token"); ok {
 						sv.exchange(c, a, mkQuery([]byte("pa"), "announce_peer", mkArgs(id, BKV{K: "info_hash", V: bs(make([]byte, 20))}, BKV{K: "port", V: bint(int64(7000 + i))}, BKV{K: "token", V: bstr(tk.S)})), false)
 						sv.exchange(c, a, mkQuery([]byte("pp"), "put", mkArgs(id, BKV{K: "v", V: bstr(fmt.Sprintf("item%d", i))}, BKV{K: "seq", V: bint(0)}, BKV{K: "token", V: bstr(tk.S)})), false)
+						storedItems = append(storedItems, storedItem{a, id, tk.S, fmt.Sprintf("5:item%d", i)})
 					}
 				}
 			}
@@ -333,13 +360,28 @@ func runC01(sc C01Sc, c *kit.Case) *kit.Violation {
 	for i, d := range sc.Msgs {
 		src := d.Src.UDP()
 		data := []byte(d.Data)
-		if d.Kind == "reply" {
+		if d.Kind == "stored" {
+			if len(storedItems) == 0 {
+				continue
+			}
+			it := storedItems[d.K%len(storedItems)]
+			tgt := refmodel.Bep44ImmutableTarget([]byte(it.encV))
+			src = it.from
+			if d.K%3 == 2 {
+				v, _, _ := refmodel.Parse([]byte(it.encV))
+				data = mkQuery([]byte("sp"), "put", mkArgs(it.id, BKV{K: "v", V: v}, BKV{K: "seq", V: bint(0)}, BKV{K: "token", V: bstr(it.token)}))
+			} else {
+				data = mkQuery([]byte("sg"), "get", mkArgs(it.id, BKV{K: "target", V: bs(tgt[:])}))
+			}
+			reachedHandler = true
+			c.Label("stored-item-get-or-put")
+		} else if d.Kind == "reply" {
 			qs := net1.Queries()
 			if len(qs) == 0 {
 				continue
 			}
 			q := qs[len(qs)-1-d.K%len(qs)]
-			data = d.Tmpl.build(q.T, sc.Cfg.Dual)
+			data = d.Tmpl.build(q.T, sc.Cfg.Dual, nodeID)
 			src = q.To
 			if d.FromOther {
 				src = d.Src.UDP()
@@ -362,9 +404,8 @@ func runC01(sc C01Sc, c *kit.Case) *kit.Violation {
 		}
 		sv.C.Inject(src, data)
 		if i%4 == 3 {
-			if err := sv.C.Quiesce(barrierTimeout); err != nil {
-				c.Inconclusive = err.Error()
-				return nil
+			if v := sv.barrierOrWedged(c, "C01", fmt.Sprintf("after datagram %d", i)); v != nil || c.Inconclusive != "" {
+				return v
 			}
 		}
 	}
@@ -379,9 +420,8 @@ func runC01(sc C01Sc, c *kit.Case) *kit.Violation {
 		}
 		return kit.Violatef("C01:operation-wedged", "the in-flight %s did not return after the hostile replies stopped, although every module goroutine is blocked", sc.Op)
 	}
-	if err := sv.C.Quiesce(barrierTimeout); err != nil {
-		c.Inconclusive = err.Error()
-		return nil
+	if v := sv.barrierOrWedged(c, "C01", "after the datagram sequence"); v != nil || c.Inconclusive != "" {
+		return v
 	}
 	// the public API still returns
 	apiDone := make(chan struct{})
